@@ -2,19 +2,21 @@
 //
 // Three streams of scenarios are run on the REAL engine, each under several restart patterns (never restart /
 // restart before every resume / random subsets of the waits):
-//   suite  goflow's own scripted runner tests (all action types, webhooks, tickets, airtime, IVR, legacy flows)
-//   rich   generated flows over many action / router / trigger / resume types with templates that read the
-//          parts of the context which are rebuilt on read (parent, child, results, input, contact, trigger, node)
-//   cfl    generated histories over the core flow language of coq/model/Engine.v; these are also written to
-//          cases_C02_*.v where the model (Persist.v: persist / restore) is run under the same restart pattern
+//
+//	suite  goflow's own scripted runner tests (all action types, webhooks, tickets, airtime, IVR, legacy flows)
+//	rich   generated flows over many action / router / trigger / resume types with templates that read the
+//	       parts of the context which are rebuilt on read (parent, child, results, input, contact, trigger, node)
+//	cfl    generated histories over the core flow language of coq/model/Engine.v; these are also written to
+//	       cases_C02_*.v where the model (Persist.v: persist / restore) is run under the same restart pattern
 //
 // Direct oracle (from the statement, independent of the Coq model):
-//   clause 1  at every wait: Marshal(ReadSession(Marshal(s))) == Marshal(s)            (byte equality)
-//   clause 2  for every pattern: every call has the same outcome, the same sprint events, the same segments
-//             and the same resulting session JSON as in the never-restarted execution    (byte equality; the UUID,
-//             clock and random sources are reset to the same state before corresponding calls)
-//   exemption scenarios whose templates read @webhook or @legacy_extra are only checked for clause 1 and for
-//             equal outcomes (the statement allows those two context values to differ)
+//
+//	clause 1  at every wait: Marshal(ReadSession(Marshal(s))) == Marshal(s)            (byte equality)
+//	clause 2  for every pattern: every call has the same outcome, the same sprint events, the same segments
+//	          and the same resulting session JSON as in the never-restarted execution    (byte equality; the UUID,
+//	          clock and random sources are reset to the same state before corresponding calls)
+//	exemption scenarios whose templates read @webhook or @legacy_extra are only checked for clause 1 and for
+//	          equal outcomes (the statement allows those two context values to differ)
 package main
 
 import (
